@@ -32,6 +32,17 @@ func genNalBody(c *RNG, n int) []byte {
 	if n > 0 && b[n-1] == 0 {
 		b[n-1] = 0x80
 	}
+	if n >= 6 && c.Intn(6) == 0 {
+		// an emulation prevention sequence (00 00 03 xx), as real NAL units have them
+		i := 1 + c.Intn(n-5)
+		b[i], b[i+1], b[i+2] = 0, 0, 3
+		if b[i+3] > 3 || i+3 == n-1 {
+			b[i+3] = byte(c.Pick(1, 2, 3, 0x80))
+		}
+		if i > 0 && b[i-1] == 0 {
+			b[i-1] = 9
+		}
+	}
 	return b
 }
 
@@ -114,6 +125,13 @@ func genAccessUnit(c *RNG, mtu int) (nals [][]byte) {
 			nals = append(nals, genH264Nal(c, c.Pick(7, 8), 2+c.Intn(6)), genH264Nal(c, 7, 2+c.Intn(6)), genH264Nal(c, 8, 2+c.Intn(6)))
 		}
 		nals = append(nals, genH264Nal(c, other(), size()))
+	}
+	if c.Intn(5) == 0 {
+		// the call ends with parameter sets: they are held across the call boundary ("SPS/PPS pairs across calls")
+		nals = append(nals, genH264Nal(c, 7, 2+c.Intn(12)))
+		if c.Bool() {
+			nals = append(nals, genH264Nal(c, 8, 2+c.Intn(6)))
+		}
 	}
 	return nals
 }
@@ -304,7 +322,11 @@ func unitCallsTok(c *RNG, mtu int, calls [][][]byte) TList {
 		for _, n := range nals {
 			us = append(us, TList{TI(int64(c.Pick(3, 4))), TBytes(n)})
 		}
-		cs = append(cs, TList{TI(int64(mtu)), us})
+		m := mtu
+		if c.Intn(4) == 0 { // the MTU may change from call to call
+			m = c.Pick(3, 4, 5, 16, 100, 1200, 3+c.Intn(60))
+		}
+		cs = append(cs, TList{TI(int64(m)), us})
 	}
 	return cs
 }
@@ -512,7 +534,7 @@ func init() {
 	}
 	register(&Prop{
 		ID:       "C10",
-		Rule:     "well-shaped Annex-B access-unit sequences (NAL types 1-23, F=0, sizes 2 B to 4xMTU with mass on MTU-2..MTU+2 and 2xMTU, 3- and 4-byte start codes, SPS+PPS pairs before coded units, AUD/filler sprinkled in) x MTU 3-1500 x StapA on/off x AVC on/off over 1-3 calls: payloader output is fed to H264Packet and compared with the units; plus plans (1-5 items: single NAL unit packets, STAP-As of 1-4 units, FU-A runs of 2-5 fragments cut anywhere, a third of the fragments empty) encoded by an independent RFC 6184 encoder in Go and by Spec/Rfc6184.v and decoded by H264Packet; plus raw payloader histories and depacketizer sequences (random, mutated) for the correspondence; non-trivial = at least one FU-A train or a STAP-A",
+		Rule:     "Annex-B access-unit sequences (NAL types 1-23, every first byte incl. the F bit in one unit of eight, sizes 2 B to 4xMTU with mass on MTU-2..MTU+2 and 2xMTU, emulation prevention sequences 00 00 03 inside bodies, 3- and 4-byte start codes, SPS/PPS pairs, several PPS behind one SPS, lone and reversed parameter sets, parameter sets held across the end of a call, AUD/filler sprinkled in) x MTU 3-1500 (changing from call to call in a quarter of the cases) x StapA on/off x AVC on/off over 1-3 calls: payloader output is fed to H264Packet and compared with the units; plus plans (1-5 items: single NAL unit packets, STAP-As of 1-4 units, FU-A runs of 2-5 fragments cut anywhere, a third of the fragments empty) encoded by an independent RFC 6184 encoder in Go and by Spec/Rfc6184.v and decoded by H264Packet; plus raw payloader histories and depacketizer sequences (random, mutated) for the correspondence; non-trivial = at least one FU-A train or a STAP-A",
 		Quick:    3000,
 		Thorough: 150000,
 		Gen: func(r *RNG, tier string, n int, emit func(op int, toks ...Tok)) {
